@@ -129,6 +129,8 @@ SCALAR_C = set(BUILTIN.values()) - {'void', 'mpz_t', '__mpz_struct'}
 # Normalisations applied to clang type spellings before the table lookup.
 NORMALISE = [
     (r'\bclass ', ''), (r'\bstruct ', ''),
+    (r'__gnu_cxx::__alloc_traits<std::allocator<(.+)>, \1>::value_type', r'\1'),
+    (r'^std::vector<(.+)>::(value_type|reference|const_reference)$', r'\1'),
     (r',\s*std::allocator<[^<>]*(<[^<>]*>)?[^<>]*>\s*', ''),
     (r'std::__cxx11::', 'std::'),
     (r'std::basic_string<char(, std::char_traits<char>)?>', 'std::string'),
